@@ -9,6 +9,8 @@ EXTENDS Cyclepoints, TLC, Json, IOUtils
 
 CONSTANTS NS, V, UseImpl
 Impl == IF UseImpl THEN JsonDeserialize(IOEnv.IMPL_FILE) ELSE <<>>
+\* evaluated once, single-threaded, before the workers start (TLC caches the value of a constant definition)
+ASSUME ImplLoaded == UseImpl => Len(Impl) > 0
 
 VARIABLES sig, place, peakFirst, stage, zx, agree
 vars == <<sig, place, peakFirst, stage, zx, agree>>
@@ -32,11 +34,13 @@ FindZerox == /\ stage = "input"
              /\ stage' = "zerox"
              /\ UNCHANGED <<sig, place, peakFirst, agree>>
 
-E == Impl[Index + 1]
+\* flat table, 3 integers per input: ok, rises, decays; a list of midpoints is the base-(NS+1) number of its entries + 1
+ListCode(l) == FoldLeft(LAMBDA acc, x : acc * (NS + 1) + x + 1, 0, l)
+EI(j) == Impl[Index * 3 + j]
 Judge == /\ stage = "zerox"
-         /\ LET ok == ~UseImpl \/ (E.ok = 1 /\ E.rises = zx[1] /\ E.decays = zx[2]) IN
+         /\ LET ok == ~UseImpl \/ (EI(1) = 1 /\ EI(2) = ListCode(zx[1]) /\ EI(3) = ListCode(zx[2])) IN
               /\ agree' = ok
-              /\ IF ~ok THEN PrintT(<<"DISAGREE", Index, "find_zerox", sig, pk, tr, zx, E>>) ELSE TRUE
+              /\ IF ~ok THEN PrintT(<<"DISAGREE", Index, "find_zerox", sig, pk, tr, zx, <<EI(1), EI(2), EI(3)>>>>) ELSE TRUE
          /\ stage' = "done"
          /\ UNCHANGED <<sig, place, peakFirst, zx>>
 
